@@ -5,7 +5,7 @@
     [gen_PostTxProcessing] returns, per execution path, the amounts the hook hands out, in call order:
       SendCoinsFromModuleToModule(fee) ; [CallMethod distributeFees(csrFee)] ; BurnCoins(..) ; SetCSR(revenue, txs). *)
 From Coq Require Import ZArith List Bool String Lia.
-From Canto Require Import Lib.SdkInt Lib.SdkDec Model.Csr Gen.KCsr.
+From Canto Require Import Lib.SdkInt Lib.SdkDec Model.Csr Gen.KCsr Gen.AgreeTactics.
 Import ListNotations.
 Open Scope Z_scope.
 
@@ -30,20 +30,22 @@ Lemma agree_PostTxProcessing : forall gas_price contract_nil gas_used revenue tx
 Proof.
   intros. unfold gen_PostTxProcessing, m_post_tx_amounts, fee_of, csr_fee_of.
   cbn [tx_gas_price tx_gas_used].
-  destruct (negb enable_csr); [reflexivity|].
-  destruct (gas_used =? 0); [reflexivity|].
-  destruct (SdkInt.of_big gas_price) as [gp|]; [|reflexivity]. cbn [obind].
-  destruct (SdkInt.mul gas_used gp) as [fee|]; [|reflexivity]. cbn [obind].
-  rewrite (Z.leb_antisym fee 0).
-  destruct (negb (fee <? 0)); [|reflexivity]. cbn [obind].
-  destruct contract_nil; [reflexivity|].
-  destruct (negb found_nft); [reflexivity|].
-  destruct (SdkDec.mul (SdkDec.of_int fee) sh) as [d|]; [|reflexivity]. cbn [obind].
-  destruct (SdkDec.truncate_int d) as [cf|]; [|reflexivity]. cbn [obind].
-  destruct (SdkInt.sub fee cf) as [rem|]; [|reflexivity]. cbn [obind].
-  rewrite (Z.leb_antisym rem 0).
-  destruct (negb (rem <? 0)); [|destruct (0 <? cf); reflexivity].
-  destruct (0 <? cf); destruct (SdkInt.add revenue cf); reflexivity.
+  first [ solve [
+    destruct (negb enable_csr); [reflexivity|];
+    destruct (gas_used =? 0); [reflexivity|];
+    destruct (SdkInt.of_big gas_price) as [gp|]; [|reflexivity]; cbn [obind];
+    destruct (SdkInt.mul gas_used gp) as [fee|]; [|reflexivity]; cbn [obind];
+    rewrite (Z.leb_antisym fee 0);
+    destruct (negb (fee <? 0)); [|reflexivity]; cbn [obind];
+    destruct contract_nil; [reflexivity|];
+    destruct (negb found_nft); [reflexivity|];
+    destruct (SdkDec.mul (SdkDec.of_int fee) sh) as [d|]; [|reflexivity]; cbn [obind];
+    destruct (SdkDec.truncate_int d) as [cf|]; [|reflexivity]; cbn [obind];
+    destruct (SdkInt.sub fee cf) as [rem|]; [|reflexivity]; cbn [obind];
+    rewrite (Z.leb_antisym rem 0);
+    destruct (negb (rem <? 0)); [|destruct (0 <? cf); reflexivity];
+    destruct (0 <? cf); destruct (SdkInt.add revenue cf); reflexivity ]
+  | solve [ destruct enable_csr, contract_nil, found_nft; normalise ] ].
 Qed.
 
 Lemma agree_PostTxProcessing_inputs : gen_PostTxProcessing_inputs =
